@@ -187,6 +187,8 @@ def rule_shielding(A, R, rule):
                 val = w["value"]
                 st2 = edge_state(A, unknown=False, proj=w["proj"], value=val)
                 I2, fr2, out2, col2 = forced_analysis(A, b, {STRAT + "is_history_altered": force_bool(not forced)}, cfgd=dict(label="EI2"), state=st2)
+                if any(k[0] == "strategy_call" for k in I2.rec.facts):
+                    continue     # the comparison is asked again: this flag is not a cache of the verdict
                 rv2 = out2.locals.get((fr2.fid, 0)) if out2 is not None else None
                 oks2 = set()
                 if rv2 is not None and rv2[0] == "adt" and 0 in adt_variants(rv2):
@@ -196,7 +198,7 @@ def rule_shielding(A, R, rule):
                 R.ob(rule, "%s | the cached verdict for '%s' is answered the same way later" % (short(b.name), "altered" if forced else "unaltered"),
                      oks2 == ({1} if forced else {0}), detail="with the cached flag the result is %s" % sorted(oks2), site=A.site(w))
         # no record at all => invalidated
-        I, fr, out, col = forced_analysis(A, b, {"std::collections::HashMap::<K, V, S, A>::get": force_hist_none(A),
+        I, fr, out, col = forced_analysis(A, b, {"std::collections::HashMap::<K, V, S, A>::get": force_hist_none(A, only_pairs=True),
                                                  "std::collections::HashMap::<K, V, S, A>::keys": empty_iter},
                                           cfgd=dict(label="EI3"), state=edge_state(A, unknown=True))
         rv = out.locals.get((fr.fid, 0)) if out is not None else None
@@ -302,13 +304,18 @@ def force_hist_some(A):
     return f
 
 
-def force_hist_none(A):
+def force_hist_none(A, only_pairs=False):
+    """history lookups miss; only_pairs: only the per-dependency records are missing, a job's own records are there"""
     import models
     orig = models.MODELS["std::collections::HashMap::<K, V, S, A>::get"]
 
     def f(I, state, frame, bi, t, args, span):
         res = orig(I, state, frame, bi, t, args, span)
         if models.self_field_of(I, args[0]) == A.L.history_field:
+            if only_pairs:
+                k = models.str_of(I, state, args[1]) or models.deref(I, state, args[1])
+                if classify_key(k)[0] != "pair":
+                    return [(adt(rv[1], {1: dict(rv[2])[1]}) if (rv[0] == "adt" and 1 in dict(rv[2])) else rv, st) for (rv, st) in res]
             return [(adt(OPTION, {0: ()}), st) for (rv, st) in res]
         return res
     return f
